@@ -40,7 +40,7 @@ Theorem C05_encrypt0_authentic : forall O_der O_rfc O_aead_open O_ctr O_cbc_dec 
               (1 <= last_byte q <= 16)%N /\ p = firstn (length q - N.to_nat (last_byte q)) q
     | MUnimplemented => False
     end.
-Proof. exact encrypt0_decrypt_authentic. Qed.
+Proof. exact (fun O_der O_rfc => encrypt0_decrypt_authentic O_der O_rfc (fun _ _ _ => [])). Qed.
 Print Assumptions C05_encrypt0_authentic.
 
 (* No wire message, key or oracle behaviour makes decryption panic, for every registered cipher suite. *)
